@@ -38,6 +38,7 @@ class Report:
         self.steps = 0
         self.trace = []
         self.done_not_idle = None
+        self.crash_predicted = False
 
 
 def _norm(v):
@@ -74,6 +75,7 @@ def replay(beh, node: str = "A", role: str = "acceptor", compare_state: bool = T
     rep = Report()
     rig = Rig(role, policy=_decide_policy(beh, node))
     ctl = rig.ctl
+    blind = False   # after a divergence: keep driving the real threads (legal steps only), no comparison
     try:
         prev = beh[0][1]
         for label, st in beh[1:]:
@@ -92,60 +94,32 @@ def replay(beh, node: str = "A", role: str = "acceptor", compare_state: bool = T
                 continue
             rep.steps += 1
             rep.trace.append(label)
-            if act == "PeerSend":
-                rig.feed(args[1])
-            elif act == "PeerClose":
-                rig.sock.eof = True
-            elif act == "ArtimTick":
-                rig.clock.advance(31)
-            elif act in ("DulIO", "DulEvent"):
-                ctl.step("dul")
-                if not rig.assoc.dul.is_alive():
-                    rig.assoc.dul.join(1)
-            elif act == "AStart":
-                rig.start_assoc_thread()
-            elif act in ("AccWait",):
-                ctl.step("assoc", "timeout" if ticked else None)
-            elif act in ("RTop", "RWait", "RMsg", "RRel", "RAbt"):
-                ctl.step("assoc")
-            elif act == "RIdle":
-                ctl.step("assoc", True if ticked else False)
-            elif act == "KillSpin":
-                ctl.step("assoc" if args[1] == "apc" else "user")
-            elif act == "UAbort":
-                rig.user_call(rig.assoc.abort)
-            elif act == "URelease":
-                rig.user_call(rig.assoc.release)
-            elif act == "UEcho":
-                rig.user_call(lambda: rig.assoc.send_c_echo())
-            elif act in ("RlSpin", "ESpin"):
-                ctl.step("user")
-            elif act in ("RlWait", "EWait", "QWait"):
-                ctl.step("user", "timeout" if ticked else None)
-            elif act == "QStart":
-                rig.connect_ok = _connect_ok(beh, node)
-                rig.user_call(_associate(rig))
-                ctl.wait_parked("dul")
-            elif act == "QConn":
-                ctl.step("user")
-            else:
-                raise MachineryError(f"no replay rule for action {label}")
-            # threads that finished must be joined so is_alive() is deterministic
-            for th in [rig.assoc] + rig.user_threads:
-                if th.ident is not None and ctl.where("assoc" if th is rig.assoc else "user") not in ("running",):
-                    pass
+            try:
+                _do(rig, act, args, ticked, pn_, sn, beh, node, blind)
+            except MachineryError:
+                if not blind:
+                    raise
+                prev = st
+                continue
             _settle(rig)
             proj = rig.project()
             if rig.crash is not None and rep.crash is None:
                 mm = re.search(r"Invalid event 'Evt(\d+)' for the current state 'Sta(\d+)'", rig.crash[1])
                 rep.crash = (role, int(mm.group(1)), int(mm.group(2))) if mm else (role, rig.crash[0], rig.crash[1])
-            if compare_state and rep.diverged is None:
+                rep.crash_predicted = (not blind) and list(sn["crash"]) == list(rep.crash)
+            if compare_state and not blind:
                 diff = compare(sn, proj)
                 if diff:
                     rep.diverged = {"step": rep.steps, "action": label, "diff": diff,
                                     "user_result": getattr(rig, "user_result", None), "user_exc": rig.user_exc}
-                    break
+                    blind = True
             prev = st
+        if blind:
+            _run_out(rig)
+            if rig.crash is not None and rep.crash is None:
+                mm = re.search(r"Invalid event 'Evt(\d+)' for the current state 'Sta(\d+)'", rig.crash[1])
+                rep.crash = (role, int(mm.group(1)), int(mm.group(2))) if mm else (role, rig.crash[0], rig.crash[1])
+                rep.crash_predicted = False
         rep.final = rig.project()
         # observed C05_DoneImpliesIdle
         f = rep.final
@@ -155,6 +129,101 @@ def replay(beh, node: str = "A", role: str = "acceptor", compare_state: bool = T
         return rep
     finally:
         rig.close()
+
+
+def _legal(rig: Rig, role: str) -> bool:
+    """Blind mode: may the thread parked at its gate take a step without the environment lying?"""
+    w = rig.ctl.where(role)
+    a = rig.assoc
+    if w in ("none", "exit", "running"):
+        return False
+    if w == "userq.getb":
+        return len(a.dul.to_user_queue.items()) > 0
+    if w == "msgq.getb":
+        return len(a.dimse.msg_queue.items()) > 0
+    if w == "ckpt.wait":
+        return a._reactor_checkpoint.is_set()
+    if w == "conn.wait":
+        return rig.sock._ready.is_set()
+    if w == "sleep@kill":
+        return (not a.dul.is_alive()) or a.dul.state_machine.current_state == "Sta1"
+    if w == "sleep@stop_dul":
+        return not a.dul.is_alive()
+    if w in ("sleep@release", "sleep@send_c_echo"):
+        return a._is_paused
+    return True
+
+
+def _do(rig: Rig, act, args, ticked, pn_, sn, beh, node, blind):
+    ctl = rig.ctl
+    def step(role, decision=None):
+        if blind:
+            if not _legal(rig, role):
+                return
+            decision = None if decision == "timeout" else decision
+        ctl.step(role, decision)
+    if act == "PeerSend":
+        rig.feed(args[1])
+    elif act == "PeerClose":
+        rig.sock.eof = True
+    elif act == "ArtimTick":
+        rig.clock.advance(31)
+    elif act in ("DulIO", "DulEvent"):
+        step("dul")
+        if not rig.assoc.dul.is_alive():
+            rig.assoc.dul.join(1)
+    elif act == "AStart":
+        rig.start_assoc_thread()
+    elif act in ("AccWait",):
+        step("assoc", "timeout" if ticked else None)
+    elif act == "RMsg":
+        rig.next_handler_abort = bool(sn["sentAbort"] and not pn_["sentAbort"])
+        step("assoc")
+    elif act in ("RTop", "RWait", "RRel", "RAbt"):
+        step("assoc")
+    elif act == "RIdle":
+        step("assoc", True if (ticked and not blind) else False)
+    elif act == "KillSpin":
+        step("assoc" if args[1] == "apc" else "user")
+    elif act in ("UAbort", "URelease", "UEcho"):
+        if blind and ctl.where("user") not in ("none", "exit"):
+            return
+        fn = {"UAbort": rig.assoc.abort, "URelease": rig.assoc.release, "UEcho": lambda: rig.assoc.send_c_echo()}[act]
+        rig.user_call(fn)
+    elif act in ("RlSpin", "ESpin"):
+        step("user")
+    elif act in ("RlWait", "EWait", "QWait"):
+        step("user", "timeout" if ticked else None)
+    elif act == "QStart":
+        rig.connect_ok = _connect_ok(beh, node)
+        rig.user_call(_associate(rig))
+        ctl.wait_parked("dul")
+    elif act == "QConn":
+        step("user")
+    else:
+        raise MachineryError(f"no replay rule for action {act}")
+
+
+def _run_out(rig: Rig, rounds: int = 60):
+    """Blind mode epilogue: round-robin every thread that can legally move, so a crash that the
+    diverged behaviour was heading for still shows (no timeouts are forced, the clock is not moved)."""
+    for _ in range(rounds):
+        moved = False
+        for role in ("dul", "assoc", "user"):
+            if _legal(rig, role):
+                before = (rig.ctl.where(role), rig.ctl.ctl[role].arrivals)
+                try:
+                    rig.ctl.step(role, False if rig.ctl.where(role) == "idle.expired" else None)
+                except MachineryError:
+                    return
+                if role == "dul" and not rig.assoc.dul.is_alive():
+                    rig.assoc.dul.join(1)
+                moved = True
+        if rig.crash is not None or not moved:
+            return
+        p = rig.project()
+        if p["dwhere"] == "exit" and p["awhere"] in ("exit", "none"):
+            return
 
 
 def _settle(rig: Rig, timeout: float = 2.0):
